@@ -17,6 +17,7 @@ struct ModelTraits {
 	bool serialization = false;  // SAVE/LOAD operations are available in this build
 	bool tracked       = true;   // element type reports its moved-from state (Tracked*)
 	bool mpi           = false;  // MSG_PACK / MSG_XFER operations are available in this build
+	bool ctor_default_inits = false;  // the allocator's construct(p) default-initialises: array(extents) leaves scalar members unwritten
 };
 
 struct Effect {
@@ -118,6 +119,16 @@ inline bool plan_effect(Model const& M, ModelTraits const& T, Op const& op, Effe
 	i64 const fresh_or_zero = T.trivial ? static_cast<i64>(0xA5A5A5A5A5A5A5A5ull) : 0;
 	int const D             = op.da;
 	e.variant               = op_name(op.kind);
+	if(D == 0 || op.db == 0) {  // zero-dimensional arrays: one element, no extents, no views; a small operation set
+		if(D != 0 || T.dmin != 0) return false;
+		switch(op.kind) {
+		case O_CTOR_DEFAULT: case O_CTOR_EXT: case O_CTOR_EXT_ELEM: case O_CTOR_COPY: case O_CTOR_MOVE: case O_DESTROY:
+		case O_ASSIGN_COPY: case O_ASSIGN_MOVE: case O_ASSIGN_SELF: case O_ELEM_WRITE: case O_READ: break;
+		default: return false;
+		}
+		if(op.ca.n || op.cb.n) return false;
+		if(op.kind == O_ASSIGN_SELF && op.var != 0) return false;
+	}
 	auto var                = [&](char const* q) { e.variant += std::string("/") + q; };
 
 	switch(op.kind) {
@@ -130,14 +141,16 @@ inline bool plan_effect(Model const& M, ModelTraits const& T, Op const& op, Effe
 		a         = make_empty(D, 0);
 		e.is_ctor = true;
 		switch(op.kind) {
-		case O_CTOR_DEFAULT: break;
+		case O_CTOR_DEFAULT:
+			if(D == 0) a.v.assign(1, fresh_or_zero);  // a 0-D array always holds one element
+			break;
 		case O_CTOR_ALLOC: a.arena = op.ar; break;
 		case O_CTOR_EXT: case O_CTOR_EXT_ELEM: {
 			if(op.nx != D) return false;
 			for(int i = 0; i < D; ++i)
 				if(op.x[i] < 0 || op.x[i] > 6) return false;
 			set_dims(a, D, op.x);
-			a.v.assign(static_cast<std::size_t>(a.count()), op.kind == O_CTOR_EXT ? fresh_or_zero : op.v);
+			a.v.assign(static_cast<std::size_t>(a.count()), op.kind == O_CTOR_EXT ? (T.ctor_default_inits ? static_cast<i64>(0xA5A5A5A5A5A5A5A5ull) : fresh_or_zero) : op.v);
 			if(op.var & 1) {
 				a.arena = op.ar;
 				var("alloc");
@@ -150,7 +163,7 @@ inline bool plan_effect(Model const& M, ModelTraits const& T, Op const& op, Effe
 			MArr const& b = M.at(D, op.b);
 			set_dims(a, D, b.n);
 			a.v     = b.v;
-			a.arena = op.kind == O_CTOR_COPY ? (T.soccc_default ? 0 : b.arena) : op.ar;
+			a.arena = op.kind == O_CTOR_COPY ? ((T.soccc_default && D != 0) ? 0 : b.arena) : op.ar;
 			e.elems = b.count();
 			if(a.arena != b.arena) var("other-arena");
 			break;
@@ -162,6 +175,12 @@ inline bool plan_effect(Model const& M, ModelTraits const& T, Op const& op, Effe
 			set_dims(a, D, b.n);
 			a.v     = b.v;
 			a.arena = op.kind == O_CTOR_MOVE ? b.arena : op.ar;
+			if(D == 0) {  // a 0-D array has no empty state: the element is moved, the source keeps one (moved-from) element
+				MArr& bz = tgt(1, D, op.b);
+				if(!T.trivial) bz.v.assign(1, -7777);
+				e.elems = 1;
+				break;
+			}
 			MArr& bn = tgt(1, D, op.b);
 			int   z[MAXD]{};
 			set_dims(bn, D, z);
@@ -271,7 +290,7 @@ inline bool plan_effect(Model const& M, ModelTraits const& T, Op const& op, Effe
 			if(same && a0.count() > 0 && !(T.pocca && a0.arena != b0.arena)) e.expect_no_alloc = e.expect_base_unchanged = true;
 			e.probe_id = (a0.arena != b0.arena && same && a0.count() > 0) ? P_COPY_OTHER_ARENA : same ? P_ASSIGN_SAME_EXT : a0.count() == 0 ? P_ASSIGN_FROM_EMPTY : b0.count() == 0 ? P_ASSIGN_TO_EMPTY : P_ASSIGN_DIFF_EXT;
 		} else if(op.kind == O_ASSIGN_MOVE) {
-			if(T.static_arrays) {  // static_array move assignment: element-wise move, extents equal
+			if(T.static_arrays || D == 0) {  // static_array (and 0-D) move assignment: element-wise move, extents equal
 				a.v      = b0.v;
 				MArr& b  = tgt(1, D, op.b);
 				if(!T.trivial) b.v.assign(b.v.size(), -7777);
@@ -568,6 +587,7 @@ inline bool plan_effect(Model const& M, ModelTraits const& T, Op const& op, Effe
 	case O_ELEM_WRITE: {
 		if(!slot_ok(D, op.a, T) || !M.at(D, op.a).alive || op.nx != D) return false;
 		MArr const& a0 = M.at(D, op.a);
+		if(a0.v.empty()) return false;
 		long        o  = 0;
 		for(int k = 0; k < D; ++k) {
 			if(op.x[k] < 0 || op.x[k] >= a0.n[k]) return false;
@@ -582,6 +602,13 @@ inline bool plan_effect(Model const& M, ModelTraits const& T, Op const& op, Effe
 	}
 	// ------------------------------------------------------------ reads
 	case O_READ: {
+		if(D == 0) {
+			if(!slot_ok(0, op.a, T) || !M.at(0, op.a).alive) return false;
+			e.reads_only = true;
+			e.elems      = 1;
+			e.expect_no_alloc = true;
+			return true;
+		}
 		MView v;
 		if(!model_view(M, T, op.da, op.a, op.ca, v)) return false;
 		if(op.var < 0 || op.var > 2) return false;
